@@ -1613,4 +1613,42 @@ theorem copyToUcol_above {K : Type} (z : K) (a : UcolArgs) (xusub : Array Nat) (
   · rw [if_neg hkeep] at hr; simp at hr
 
 example : UcolLead exUcolArgs := by decide
+
+theorem pruneL_fold_segperm {K : Type} (z : K) (a : PruneArgs)
+    (hmono : ∀ i j, i ≤ j → j < a.xlsub.size → a.xlsub.getD i 0 ≤ a.xlsub.getD j 0) : ∀ (is : List Nat) (st : PruneSt K),
+    (∀ i ∈ is, PruneWf a st.lsub.size st.lusup.size st.xprune.size (a.segrep.getD i 0) ∧ a.segrep.getD i 0 + 1 < a.xlsub.size) →
+    ∃ σ : Equiv.Perm ℕ, (∀ k, (is.foldl (pruneStep z a) st).lsub.getD k 0 = st.lsub.getD (σ k) 0) ∧
+      (∀ c, c + 1 < a.xlsub.size → ∀ k, a.xlsub.getD c 0 ≤ k → k < a.xlsub.getD (c+1) 0 →
+        a.xlsub.getD c 0 ≤ σ k ∧ σ k < a.xlsub.getD (c+1) 0) := by
+  intro is
+  induction is with
+  | nil => intro st _; exact ⟨Equiv.refl _, fun _ => rfl, fun _ _ k h1 h2 => ⟨h1, h2⟩⟩
+  | cons i is ih =>
+    intro st hwf
+    obtain ⟨z1, z2, z3, σ1, s1, s2, s3, _⟩ := pruneL_step_perm z a st i (hwf i (List.mem_cons_self ..)).1
+    obtain ⟨σ2, t1, t2⟩ := ih (pruneStep z a st i) (by rw [z1, z2, z3]; exact fun j hj => hwf j (List.mem_cons_of_mem _ hj))
+    have hi := (hwf i (List.mem_cons_self ..)).2
+    refine ⟨σ2.trans σ1, fun k => by rw [List.foldl_cons, t1, s3]; rfl, ?_⟩
+    intro c hc k k1 k2
+    have h2 := t2 c hc k k1 k2
+    simp only [Equiv.trans_apply]
+    by_cases hci : c = a.segrep.getD i 0
+    · subst hci; exact s2 _ h2.1 h2.2
+    · have : σ1 (σ2 k) = σ2 k := by
+        apply s1
+        rcases Nat.lt_or_gt_of_ne hci with hlt | hgt
+        · have := hmono (c+1) (a.segrep.getD i 0) (by omega) (by omega); left; omega
+        · have := hmono (a.segrep.getD i 0 + 1) c (by omega) (by omega); right; omega
+      rw [this]; exact h2
+
+/-- **dpruneL.c, the whole call, per list**: with `xlsub` monotone the permutation of `pruneL_perm` maps the list
+`[xlsub[c], xlsub[c+1])` of EVERY column `c` to itself — after the call each column's list is a permutation of what it
+was before the call. -/
+theorem pruneL_segperm {K : Type} (z : K) (a : PruneArgs) (nseg : Nat) (st : PruneSt K)
+    (hwf : ∀ i < nseg, PruneWf a st.lsub.size st.lusup.size st.xprune.size (a.segrep.getD i 0) ∧ a.segrep.getD i 0 + 1 < a.xlsub.size)
+    (hmono : ∀ i j, i ≤ j → j < a.xlsub.size → a.xlsub.getD i 0 ≤ a.xlsub.getD j 0) :
+    ∃ σ : Equiv.Perm ℕ, (∀ k, (pruneL z a nseg st).lsub.getD k 0 = st.lsub.getD (σ k) 0) ∧
+      (∀ c, c + 1 < a.xlsub.size → ∀ k, a.xlsub.getD c 0 ≤ k → k < a.xlsub.getD (c+1) 0 →
+        a.xlsub.getD c 0 ≤ σ k ∧ σ k < a.xlsub.getD (c+1) 0) :=
+  pruneL_fold_segperm z a hmono (List.range nseg) st (fun i hi => hwf i (List.mem_range.1 hi))
 end Slu.SymbArr
